@@ -98,18 +98,21 @@ def openingHook (n : Node) (st : St) : Node × St :=
           (.mk .jsxOpening as [nameN, .mk .list las (before ++ decoupleVModels elems ++ after), ta], st)
   | n => (n, st)
 
+/-- the binding class of a named, un-aliased `defineComponent` specifier, if any -/
+def importedDefineComponent (specs : List Node) : Option String :=
+  specs.findSome? fun s =>
+    match s with
+    | .mk .importSpec _ [local_, .mk .none _ _] =>
+      if identName local_ == "defineComponent" then some (identBind local_) else none
+    | _ => none
+
 /-- `visit_mut_import_decl` -/
 def importHook (n : Node) (st : St) : St :=
   match n with
   | .mk .importDecl _ (.mk .list _ specs :: .mk .str (src :: _) _ :: _) =>
     if src != "vue" then st
     else
-      let found := specs.findSome? fun s =>
-        match s with
-        | .mk .importSpec _ [local_, .mk .none _ _] =>
-          if identName local_ == "defineComponent" then some (identBind local_) else none
-        | _ => none
-      match found with
+      match importedDefineComponent specs with
       | some b => { st with defineComponent := some b }
       | none => st
   | _ => st
@@ -124,22 +127,26 @@ def exprHook (o : Opts) (env : Env) (pos : Pos) (n : Node) (st : St) : Node × S
     (n, { st with assignmentLeft := some (nIdent name bind) })
   | n => (n, st)
 
+/-- the hook that runs for a node of a particular kind once its children were visited
+    (`visit_mut_stmts`, `visit_mut_arrow_expr`, `visit_mut_jsx_opening_element`, `visit_mut_import_decl`,
+     `visit_mut_ts_interface_decl`, `visit_mut_ts_type_alias_decl`, `visit_mut_call_expr`, `visit_mut_var_declarator`) -/
+def kindHook (o : Opts) (env : Env) (n : Node) (st : St) : Node × St :=
+  match n with
+  | .mk .stmts as items => let (items, st) := drainInto items st; (.mk .stmts as items, st)
+  | .mk .arrow _ _ => drainArrow n st
+  | .mk .jsxOpening _ _ => openingHook n st
+  | .mk .importDecl _ _ => (n, importHook n st)
+  | .mk .tsIface _ _ => (n, ifaceHook o n st)
+  | .mk .tsAlias _ _ => (n, aliasHook o n st)
+  | .mk .call _ _ => callHook o env n st
+  | .mk .declarator _ _ => declaratorHook o n st
+  | n => (n, st)
+
 mutual
 def visit (o : Opts) (env : Env) : Node → Pos → St → Node × St
   | .mk k as ks, pos, st =>
     let (ks', st) := visitKids o env k pos 0 ks st
-    let n := Node.mk k as ks'
-    let (n, st) :=
-      match k with
-      | .stmts => let (items, st) := drainInto ks' st; (Node.mk k as items, st)
-      | .arrow => drainArrow n st
-      | .jsxOpening => openingHook n st
-      | .importDecl => (n, importHook n st)
-      | .tsIface => (n, ifaceHook o n st)
-      | .tsAlias => (n, aliasHook o n st)
-      | .call => callHook o env n st
-      | .declarator => declaratorHook o n st
-      | _ => (n, st)
+    let (n, st) := kindHook o env (Node.mk k as ks') st
     exprHook o env pos n st
 def visitKids (o : Opts) (env : Env) (k : K) (pos : Pos) : Nat → List Node → St → List Node × St
   | _, [], st => ([], st)
